@@ -102,6 +102,7 @@ def _run_shard(args):
     nfail_keys: Counter = Counter()
     samples = []
     t0 = time.time()
+    max_cpu = 0.0
     timed = hasattr(signal, "SIGPROF") and CASE_CPU_LIMIT > 0
     if timed:
         signal.signal(signal.SIGPROF, _on_sigprof)
@@ -113,11 +114,13 @@ def _run_shard(args):
             continue
         if timed:
             signal.setitimer(signal.ITIMER_PROF, CASE_CPU_LIMIT)
+        c0 = time.process_time()
         try:
             r = _judge(sl, case)
         finally:
             if timed:
                 signal.setitimer(signal.ITIMER_PROF, 0)
+        max_cpu = max(max_cpu, time.process_time() - c0)
         if _ABORT is not None and r.outcome == "did-not-terminate":
             _ABORT[si] = 1
         evals += 1
@@ -149,6 +152,7 @@ def _run_shard(args):
         fail_counts=nfail_keys,
         samples=samples,
         wall=time.time() - t0,
+        max_cpu=max_cpu,
     )
 
 
@@ -195,6 +199,7 @@ def run_slices(ctx: Ctx, slices: List[Slice], pool_jobs: Optional[int] = None) -
         p["nontrivial"] += int(res["nt"].size)
         p["outcomes"].update(res["outcomes"])
         p["wall_cpu_s"] += res["wall"]
+        p["max_case_cpu_s"] = round(max(p.get("max_case_cpu_s", 0.0), res.get("max_cpu", 0.0)), 2)
         ctx.evaluations += res["evals"]
         ctx.nontrivial_hashes.append(res["nt"])
         ctx.outcomes.update(res["outcomes"])
